@@ -178,11 +178,19 @@ def check(run):
     need("NodeEncoder" in jm.classes, "anchor: class NodeEncoder")
     ne = jm.funcs.get("NodeEncoder.default")
     need(ne is not None, "anchor: NodeEncoder.default")
+    # every return of default(): node_to_dict(node) exactly when isinstance(node, Node), the base class's default otherwise
     ok_ne = False
-    for n in own_nodes(ne.node):
-        if isinstance(n, ast.If) and isinstance(n.test, ast.Call) and common.is_name(n.test.func, "isinstance") and len(n.body) == 1 and \
-                isinstance(n.body[0], ast.Return) and isinstance(n.body[0].value, ast.Call) and prog.callee(jm, ne, n.body[0].value).func is n2d:
-            ok_ne = common.is_name(n.body[0].value.args[0], ne.params[1]) and norm_src(n.test.args[1]) == "Node"
+    azn = G.Atomizer(rename={ne.params[1]: "OBJ"})
+    isnode = azn.formula(common.spec_expr("isinstance(OBJ, Node)"))
+    f_n2d, f_other = [], []
+    for r_ in own_nodes(ne.node):
+        if isinstance(r_, ast.Return) and r_.value is not None:
+            pc_ = G.reach(ne.body, r_, azn)
+            for c_, leaf in common.split_ifexp(r_.value, azn):
+                is_n2d = isinstance(leaf, ast.Call) and prog.callee(jm, ne, leaf).func is n2d and len(leaf.args) == 1 and common.is_name(leaf.args[0], ne.params[1])
+                (f_n2d if is_n2d else f_other).append(G.f_and(pc_ if pc_ is not None else G.F, c_))
+    if f_n2d:
+        ok_ne = G.equivalent(G.f_or(*f_n2d), isnode)[0] and (not f_other or G.equivalent(G.f_or(*f_other), G.f_not(isnode))[0])
     base_ok = any(prog.dotted(jm, b) == "json.JSONEncoder" for b in jm.classes["NodeEncoder"].bases)
     run.ob("R2-json-api", "json_conversion.NodeEncoder.default", ok_ne and base_ok, w(ne.node, jm),
            "NodeEncoder (a json.JSONEncoder) encodes a Node as node_to_dict(node)", "default() does not return node_to_dict(node) for Node instances",
@@ -222,9 +230,13 @@ def check(run):
     ok_j = False
     det = ""
     if len(rt) == 1:
-        v = rt[0].value
+        envj = common.block_env(j2t.body, rt[0]) or {}
+        v = G.Atomizer(subst={k: x for k, x in envj.items() if k not in j2t.params}).inline(rt[0].value) if envj else rt[0].value
+        if v is not rt[0].value:
+            # inlined copy: resolve the callee on the original call node
+            v_call = rt[0].value
         det = f"returns `{common.short_src(v)}`"
-        if isinstance(v, ast.Call) and prog.callee(jm, j2t, v).func is asn and len(v.args) == 1 and isinstance(v.args[0], ast.Call) and \
+        if isinstance(v, ast.Call) and prog.callee(jm, j2t, rt[0].value).func is asn and len(v.args) == 1 and isinstance(v.args[0], ast.Call) and \
                 prog.dotted(jm, v.args[0].func) == "json.loads" and v.args[0].args and common.is_name(v.args[0].args[0], j2t.params[0]) and \
                 not any(k.arg in ("object_hook", "object_pairs_hook", "cls") for k in v.args[0].keywords):
             ok_j = True
@@ -268,6 +280,14 @@ def check(run):
     run.ob("R3-cli", "__main__.main/input-bytes", DATA is not None and sorted(data_srcs) == ["file:rb", "stdin.buffer"], w(mn.node, mm),
            "the CLI scans the raw bytes of the file (binary mode) or of standard input (sys.stdin.buffer)", f"data sources: {data_srcs}",
            mech="reaching definitions of the scanned variable")
+    # nothing edits the bytes between reading and scanning: every store to DATA is one of the reads above
+    if DATA is not None:
+        other = [st_ for st_ in stores.get(DATA, []) if not (isinstance(st_.value, ast.Call) and isinstance(st_.value.func, ast.Attribute) and st_.value.func.attr == "read")]
+        other += [n for n in own_nodes(mn.node) if isinstance(n, (ast.AugAssign, ast.AnnAssign)) and common.is_name(n.target, DATA)]
+        other += [n for n in own_nodes(mn.node) if isinstance(n, ast.Assign) and any(isinstance(t, (ast.Tuple, ast.List)) and any(common.is_name(e, DATA) for e in t.elts) for t in n.targets)]
+        run.ob("R3-cli", "__main__.main/input-unmodified", not other, w(other[0], mm) if other else w(mn.node, mm),
+               "the bytes that are scanned are exactly the bytes that were read (nothing trims, decodes or rewrites them first)",
+               f"`{common.short_src(other[0], 80)}` rewrites the input before the scan" if other else "", mech="store census of the scanned variable")
     # tree = Multidecoder(decoders).scan(data)
     TREE = None
     ok_scan = False
